@@ -126,13 +126,30 @@ pub fn guarded<T>(f: impl FnOnce() -> T) -> Result<T, String> {
     }
 }
 
+/// where the last panic OUTSIDE a guarded call happened: (file, line, message)
+pub static UNGUARDED_PANIC: std::sync::Mutex<Option<(String, u32, String)>> = std::sync::Mutex::new(None);
+
 /// Silence the default panic message printing (panics of the code under test are data)
 pub fn quiet_panics() {
     let default = std::panic::take_hook();
     std::panic::set_hook(Box::new(move |info| {
-        // panics of the code under test (inside `guarded`) are data; a panic of the harness itself is reported
-        if IN_GUARD.with(|g| g.get()) == 0 { default(info); }
+        // panics of the code under test (inside `guarded`) are data; a panic outside is remembered with its location: if it
+        // happened in the repository's code (a call the harness did not wrap) it is still a finding, not a harness failure
+        if IN_GUARD.with(|g| g.get()) == 0 {
+            let msg = if let Some(s) = info.payload().downcast_ref::<&str>() { s.to_string() } else if let Some(s) = info.payload().downcast_ref::<String>() { s.clone() } else { "panic".to_string() };
+            if let Some(l) = info.location() { if let Ok(mut g) = UNGUARDED_PANIC.lock() { *g = Some((l.file().to_string(), l.line(), msg)); } }
+            default(info);
+        }
     }));
+}
+
+/// did the remembered panic happen in the code under test (not in the harness, the standard library or a dependency)?
+pub fn unguarded_panic_in_code_under_test() -> Option<(String, u32, String)> {
+    let g = UNGUARDED_PANIC.lock().ok()?;
+    let (file, line, msg) = g.clone()?;
+    let harness_dir = env!("CARGO_MANIFEST_DIR");
+    let foreign = file.starts_with(harness_dir) || file.starts_with("src/") || file.contains("/.cargo/registry/") || file.contains("/rustc/") || file.contains("/rustlib/");
+    if foreign { None } else { Some((file, line, msg)) }
 }
 
 pub fn le32(x: u32) -> [u8; 4] {
